@@ -450,6 +450,10 @@ class Executor(object):
         if st.spec and name in self.reg.ghosts:
             return [(st, VFunc('ghost', self.reg.ghosts[name], name=name))]
         v = self.global_name(st, st.module, name)
+        if v is None and name in ('__package__', '__name__', '__file__'):
+            # module attributes set by the import system: constants of the module that is being read
+            mod = getattr(st.module, 'name', None) or str(st.module)
+            v = VStr({'__package__': mod.rsplit('.', 1)[0], '__name__': mod, '__file__': mod.replace('.', '/') + '.py'}[name])
         if v is None:
             raise Unsupported('unknown name %r (line %s)' % (name, getattr(node, 'lineno', '?')))
         return [(st, v)]
@@ -2425,6 +2429,11 @@ class Executor(object):
                         raise Unsupported('loop type for %s must be union-free (use opt[...])' % n)
                     s.env[n] = self.fresh(s, alts[0], n)
                 elif n in s.env and s.env[n] is not None:
+                    if isinstance(s.env[n], VNone):
+                        # None before the loop says nothing about what the loop assigns: without a declared type the
+                        # variable would stay None in the generic iteration (found by seeded change C15c)
+                        raise Unsupported('loop variable %r is None before loop %d of %s and assigned inside: declare its type '
+                                          'in the loop contract (types={%r: ...})' % (n, ordn, fn.key, n))
                     s.env[n] = self.fresh(s, self.shape_type(s, s.env[n]), n)
                 else:
                     # first assigned inside the loop: unknown before; leave unbound unless typed
